@@ -142,7 +142,10 @@ def validate_once(module, cfg, trace_path, timeout=900, xmx="4g"):
     shutil.rmtree(meta, ignore_errors=True)
     if rc == 124:
         raise ToolError("TLC timed out validating " + trace_path)
-    res = dict(accepted=False, line=None, unmatched=None, laststate=None, invariant=None, out=out, states=0)
+    res = dict(accepted=False, line=None, unmatched=None, laststate=None, invariant=None, out=out, states=0,
+               expected=None, kf=set())
+    for mk in re.finditer(r'<<"KF", \{([^}]*)\}>>', out):
+        res["kf"] |= set(x.strip().strip('"') for x in mk.group(1).split(",") if x.strip())
     m = None
     for m in STAT_RE.finditer(out):
         pass
@@ -170,6 +173,12 @@ def validate_once(module, cfg, trace_path, timeout=900, xmx="4g"):
                 res["unmatched"] = json.loads(mu.group(1).encode().decode("unicode_escape"))
             except Exception:
                 res["unmatched"] = mu.group(1)
+        me = re.search(r'<<"EXPECTED", "(.*)">>', out)
+        if me:
+            try:
+                res["expected"] = json.loads(me.group(1).encode().decode("unicode_escape"))
+            except Exception:
+                res["expected"] = None
         ml = re.search(r'<<"LASTSTATE", "(.*)">>', out)
         if ml:
             try:
@@ -190,6 +199,7 @@ def validate_batch(module, cfg, trace_path, timeout=900, max_failures=25):
     failures = []
     states = 0
     start = 0
+    kf = set()
     tmpdir = tempfile.mkdtemp(prefix="vb_", dir=WORK)
     try:
         while start < total and len(failures) < max_failures:
@@ -199,6 +209,7 @@ def validate_batch(module, cfg, trace_path, timeout=900, max_failures=25):
                     f.writelines(t[1])
             r = validate_once(module, cfg, part, timeout=timeout)
             states += r["states"]
+            kf |= r.get("kf", set())
             if r["accepted"]:
                 break
             # locate the failing trace
@@ -211,12 +222,14 @@ def validate_batch(module, cfg, trace_path, timeout=900, max_failures=25):
                     break
                 acc += n
             fail = dict(index=k, lines=traces[k][1], line_in_trace=line - acc, unmatched=r["unmatched"],
-                        invariant=r["invariant"], flags=r.get("flags"), laststate=r["laststate"])
+                        invariant=r["invariant"], flags=r.get("flags"), laststate=r["laststate"],
+                        expected=r.get("expected"))
             failures.append(fail)
             start = k + 1
     finally:
         shutil.rmtree(tmpdir, ignore_errors=True)
-    return dict(traces=total, accepted=total - len(failures), failures=failures, states=states)
+    return dict(traces=total, accepted=total - len(failures), failures=failures, states=states, kf=kf,
+                all_lines=[t[1] for t in traces])
 
 
 def summarize_event(r):
@@ -239,6 +252,8 @@ def describe_failure(f, context=14):
         out.append(f"{mark}{i:4d} {summarize_event(r)}")
     if f.get("invariant"):
         out.append(f"   invariant violated: {f['invariant']} flags={f.get('flags')}")
+    if f.get("expected") is not None:
+        out.append(f"   specification expected one of: {json.dumps(f['expected'])[:900]}")
     ls = f.get("laststate")
     if ls:
         for e in ("A", "B"):
